@@ -341,7 +341,27 @@ pub fn gen_talentsched(rng: &mut Rng) -> ExInst {
 /// In-domain (what the benchmark instances satisfy and the model relies on): within each class the aircraft are listed
 /// by non-decreasing target and non-decreasing latest time; the separations satisfy the triangle inequality.
 /// Tokens: the same numbers as the file.
+/// one runway, three classes whose separation ROWS differ markedly (row minimum far from column minimum), loose deadlines,
+/// aircraft arriving in small bunches: merged states (previous class unknown) then decide whether the optimum survives,
+/// and the bound on the separation after an unknown predecessor must be the column minimum
+fn gen_alp_row_dominated(rng: &mut Rng) -> ExInst {
+    let k = 3usize; let n = 8usize;
+    let mut rows: Vec<Vec<i64>> = vec![(0..3).map(|_| rng.range(1, 2)).collect(), (0..3).map(|_| rng.range(8, 9)).collect(), (0..3).map(|_| rng.range(5, 6)).collect()];
+    for i in (1..3).rev() { let j = rng.below(i as u64 + 1) as usize; rows.swap(i, j); }
+    let sep = rows;      // entries of a row within 1 of each other and rows >= 1: the triangle inequality holds
+    let d = rng.range(7, 9);
+    let tg: Vec<i64> = vec![0, 0, 1, 1, d + 1, d + 1, 2 * d + 1, 2 * d + 1];
+    let ac: Vec<(i64, i64, usize)> = tg.iter().map(|t| (*t, *t + 100, rng.below(k as u64) as usize)).collect();
+    let mut file = format!("{} {} {}\n", n, k, 1);
+    for a in &ac { file.push_str(&format!("{} {} {}\n", a.0, a.1, a.2)); }
+    for row in &sep { file.push_str(&format!("{}\n", join(row, " "))); }
+    let mut toks = vec![n as i64, k as i64, 1];
+    for a in &ac { toks.push(a.0); toks.push(a.1); toks.push(a.2 as i64); }
+    toks.extend(sep.iter().flatten().copied());
+    ExInst { file, tokens: join(&toks, " "), tags: vec!["row_dominated_separation", "loose_latest", "force_w2"] }
+}
 pub fn gen_alp(rng: &mut Rng) -> ExInst {
+    if rng.chance(1, 4) { return gen_alp_row_dominated(rng); }
     let mut tags: Vec<&'static str> = vec![];
     let r = *rng.pick(&[1usize, 1, 2, 2, 3]);
     let nmax = [7, 6, 5][r - 1];
